@@ -25,6 +25,61 @@ PROPS = {
             "NOT decided: that selected entries sum to the Kemeny score (composition with C01's numeric core). "
             "Trusted: numba nopython semantics, numpy broadcasting of `row * weights[:, newaxis]`.",
             "DESIGN.md section 3 C02"),
+    "C04": ("abstract evaluation of the score producers (lazy path scenarios, BioConsert initial-score table with a "
+            "symbolic cost matrix, local-search delta bookkeeping, selection scenarios) + producer enumeration + "
+            "optional-value guard rule reading the dependency's source",
+            "Decides for all inputs: which code stores a reported score (closed set of producers), that the lazy path "
+            "computes the missing score from the first ranking with the object's own dataset and scheme and never "
+            "overwrites a supplied one, that every algorithm's Consensus carries the caller's dataset and scheme, that "
+            "BioConsert's initial score is the definitional sum over pairs with row-major strides, that the local "
+            "search returns the sum of accepted deltas, that BioConsert reports the minimum final score, and that a "
+            "possibly-None solver value is never stored unguarded.",
+            "NOT decided: float accumulation error of deltas; the number a solver reports as objective value. Trusted: "
+            "numba nopython semantics; numpy amin/where/flatten/reshape as modelled in rules/bioc.py.",
+            "DESIGN.md section 3 C04"),
+    "C08": ("exhaustive abstract evaluation of the local search on every dense bucket-id vector of <= 4 (thorough: 5) "
+            "elements with a symbolic cost matrix and a policy for acceptance tests",
+            "Decides the fix-point protocol, both neighbourhoods, the negative thresholds, complete candidate coverage, "
+            "that each tested accumulated value equals the definitional move delta, the highest-bucket bookkeeping, "
+            "dense renumbering after a move and absence of out-of-range indexing - for every cost matrix, on all order "
+            "types of bucket-id vectors of the bounded universe (ids are only compared and shifted by one, so larger "
+            "universes add no new guard combination).",
+            "NOT decided: float accumulation error. Small-scope argument for universes > 5 elements is an argument, not "
+            "a check. Trusted: numba nopython semantics.",
+            "DESIGN.md section 3 C08"),
+    "C09": ("abstract evaluation of the departure-ranking builder on scenarios whose derived datasets number "
+            "elements differently from the caller (id-space agreement), plus the C04/C08 tables",
+            "Decides that every starting row is encoded with the caller's element ids (the ids the cost matrix and the "
+            "decoder use), that the start set is every distinct unified ranking plus the all-tied row or one row per "
+            "starter computed on the caller's inputs, that initial scores are definitional, that only strictly "
+            "improving moves are applied, and that exactly the minimal rows are returned.",
+            "NOT decided: numeric agreement of float deltas; that starters return complete rankings (C03).",
+            "DESIGN.md section 3 C09"),
+    "C11": ("abstract evaluation of the vectorised status counts with symbolic B/T over one-, two- and three-ranking "
+            "worlds, of the decision tree over the 13 weak orderings of three costs, and of the three-way partition "
+            "over all 27 sign assignments",
+            "Decides the per-step placement rule for every dataset, scheme and pivot: the three costs are the "
+            "definitional before/tied/after costs, tie is chosen iff cheapest (ties preferred) else before iff <= after, "
+            "negative/zero/positive go before/with/after the pivot exactly once, and the pivot is drawn from the "
+            "remaining elements.",
+            "NOT decided: the mathematical implication from the placement rule to pivot independence for coherent "
+            "preferences. Trusted: numpy count_nonzero/vdot on integer vectors.",
+            "DESIGN.md section 3 C11"),
+    "C13": ("abstract evaluation of the pair counter over the order types of (before, after) and of the "
+            "ordering/grouping code over the 13 weak orderings of three scores",
+            "Decides the counting rule (1 / 0.5 / 0 and the victory-equality-defeat columns, each unordered pair once, "
+            "tie slot irrelevant), the descending order with grouping of equal scores, and that the feature "
+            "dictionaries are the same arrays keyed by the same id map - for every dataset and scheme.",
+            "Trusted: numpy argsort (any stable or unstable order among equal scores gives the same buckets).",
+            "DESIGN.md section 3 C13"),
+    "C19": ("abstract evaluation of the constructor over a grid realising every order type of the constrained entries "
+            "(finite truth table), of scaling with symbolic penalties, of the proportionality test over a pool of "
+            "table pairs, and of preset builders / nickname dispatch",
+            "Decides the validation truth table and exception classes, fresh storage, scaling through the validating "
+            "constructor with self untouched, equivalence = positive multiple on both vectors over the compared "
+            "prefix, the documented preset tables and the nickname of each preset.",
+            "NOT decided: homogeneity of Kemeny scores under scaling (linear algebra), float exactness of ratios.",
+            "DESIGN.md section 3 C19"),
 }
 
 
